@@ -340,7 +340,7 @@ func (kv *kv) put(name string, value []byte) (api.SecretVersion, error) {
 	// If the new value is the same as the current latest version, don't store a
 	// new copy.
 	bsValue := byteString(value)
-	if s.Versions[s.LatestVersion] == bsValue {
+	if cur, ok := s.Versions[s.LatestVersion]; ok && cur == bsValue {
 		return s.LatestVersion, nil
 	}
 
